@@ -320,6 +320,9 @@ PowRule(t, al, hasalg, alg) ==
                THEN IF k >= 2 /\ ~IsSq(t) THEN Res(<<nm>>, "AssertionError", NoVal)
                     ELSE Res(<<nm>>, "none", N("PowProd", <<>>, [t |-> t, k |-> IF Mutant = "PowIntOffByOne" THEN k + 1 ELSE k]))
                \* k == -1: inv(A, new_alg)
+               \* (DOMAIN RESTRICTION: the exact inverse of LinalgRules needs at most 6 rows and entries within 24)
+               ELSE IF k = -1 /\ ~(ShapeOf(t)[1] <= 6 /\ ShapeOf(t)[2] <= 6 /\ EntriesWithin(Denote(t), 24))
+               THEN Res(<<nm>>, "Unmodelled", NoVal)
                ELSE IF k = -1
                THEN LET r == IF Mutant = "PowNegOneNoInv" THEN Res(<<>>, "none", N("PowProd", <<>>, [t |-> t, k |-> 1]))
                              ELSE InvRuleA(t, PowInvAlg(alg))
@@ -359,22 +362,28 @@ SkelU(v) ==
       [] v.k = "Inv" -> Skel(v.p.r)
       [] OTHER -> SLk(v.k, [i \in 1..Len(v.a) |-> SkelU(v.a[i])])
 
-\* every application of f inside the value is defined (and every inverse exists and is tame)
-RECURSIVE ValDef(_)
-ValDef(v) ==
+\* every application of f inside the value is defined (and every inverse exists, is tame and is not a lazy
+\* iterative solve)
+RECURSIVE NoIter(_)
+NoIter(r) == r.k # "IterInv" /\ \A i \in 1..Len(r.a): NoIter(r.a[i])
+\* (top, s): the operand of the whole call and its decomposition SpecG(top), so that a leaf application on the whole
+\* operand (generic base case of a composite) does not recompute it
+SpecGC(x, top, s) == IF x = top THEN s ELSE SpecG(x)
+RECURSIVE ValDefS(_, _, _)
+ValDefS(v, top, s) ==
     CASE v.k = "FDiagonal" -> \A i \in 1..Len(v.p.t.p.v): FDef(v.p.f, QFromC(v.p.t.p.v[i]))
       [] v.k = "FIdentity" -> FDef(v.p.f, QInt(1))
       [] v.k = "FScalarMul" -> FDef(v.p.f, v.p.t.p.c)
-      [] v.k \in {"FEig", "FEigh"} -> HasSpecG(v.p.t) /\ SpecDefAll(v.p.f, SpecG(v.p.t))
+      [] v.k \in {"FEig", "FEigh"} -> HasSpecG(v.p.t) /\ SpecDefAll(v.p.f, SpecGC(v.p.t, top, s))
       [] v.k \in {"FLanczos", "FArnoldi"} -> FALSE                  \* Krylov approximations: not modelled
-      [] v.k = "Inv" -> AllDef(v.p.r) /\ AllTame(v.p.r) /\ ~(\E x \in {"IterInv"}: v.p.r.k = x)
+      [] v.k = "Inv" -> AllDef(v.p.r) /\ AllTame(v.p.r) /\ NoIter(v.p.r)
       [] v.k \in {"ILike", "PowProd"} -> TRUE
-      [] OTHER -> \A i \in 1..Len(v.a): ValDef(v.a[i])
+      [] OTHER -> \A i \in 1..Len(v.a): ValDefS(v.a[i], top, s)
 
 \* spectral decomposition of a value, computed from the leaves' rule bodies by the structural constructors
-RECURSIVE SpecV(_)
-SpecV(v) ==
-    LET ch == [i \in 1..Len(v.a) |-> SpecV(v.a[i])]
+RECURSIVE SpecVS(_, _, _)
+SpecVS(v, top, s) ==
+    LET ch == [i \in 1..Len(v.a) |-> SpecVS(v.a[i], top, s)]
         f == v.p.f
     IN CASE
          \* Diagonal(f(A.diag)): f entry by entry
@@ -394,7 +403,7 @@ SpecV(v) ==
                         Vi == MInverse(V)
                     IN Merge([i \in 1..Len(w.p.sp.lam) |->
                                  SP(FApp(f, w.p.sp.lam[i]), MNormalize(MMul(MMul(V, Sel(V.r, i)), Vi)))])
-               ELSE FSpecM(f, SpecG(v.p.t))
+               ELSE FSpecM(f, SpecGC(v.p.t, top, s))
          [] v.k = "BlockDiag" ->
                BlockSpec(Repeat(ch, v.p.mult), Repeat([i \in 1..Len(ch) |-> ch[i][1].P.r], v.p.mult))
          [] v.k = "Kronecker" -> KronSpecN(ch)
@@ -403,14 +412,18 @@ SpecV(v) ==
          [] v.k = "Adjoint" -> AdjSpec(ch[1])
          [] v.k = "ILike" -> <<SP(QInt(1), Eye(v.p.n))>>
 
+NoTop == [k |-> "none", a |-> <<>>, p |-> NoP]
+ValDef(v) == ValDefS(v, NoTop, <<>>)
+SpecV(v) == SpecVS(v, NoTop, <<>>)
+
 \* exact matrix of a value (integer powers and inverses are matrices, not spectral data)
 RECURSIVE MPowN(_, _)
 MPowN(M, k) == IF k = 1 THEN M ELSE MNormalize(MMul(M, MPowN(M, k - 1)))
 RECURSIVE MKronSumN(_)
 MKronSumN(s) == IF Len(s) = 1 THEN s[1] ELSE MNormalize(MKronSum(s[1], MKronSumN(Tail(s))))
-RECURSIVE MatV(_)
-MatV(v) ==
-    LET ch == [i \in 1..Len(v.a) |-> MatV(v.a[i])] IN
+RECURSIVE MatVS(_, _, _)
+MatVS(v, top, s) ==
+    LET ch == [i \in 1..Len(v.a) |-> MatVS(v.a[i], top, s)] IN
     CASE v.k = "PowProd" -> MPowN(Denote(v.p.t), v.p.k)
       [] v.k = "Inv" -> DenoteR(v.p.r)
       [] v.k = "ILike" -> Eye(v.p.n)
@@ -419,7 +432,8 @@ MatV(v) ==
       [] v.k = "BlockDiag" -> MBlockN(Repeat(ch, v.p.mult))
       [] v.k = "Transpose" -> MTr(ch[1])
       [] v.k = "Adjoint" -> MAdj(ch[1])
-      [] OTHER -> MNormalize(SumLamP(SpecV(v)))
+      [] OTHER -> MNormalize(SumLamP(SpecVS(v, top, s)))
+MatV(v) == MatVS(v, NoTop, <<>>)
 
 \* exponent spectrum of a value built from exp-leaves: exp(A) is represented by the decomposition of A;
 \* exp(a) (x) exp(b) = exp(a (+) b) because e^x e^y = e^(x + y)   (no branch: holds for every spectrum);
@@ -484,43 +498,61 @@ PowSquareDomain(t) ==
 
 ---------------------------------------------------------------------------
 (* 6.  Correctness statements of the unary rules                           *)
-UPrem(t, f, r) ==
-    HasSpecG(t) /\ IsSq(t) /\ FExact(f) /\ OK(r) /\ SpecDefAll(f, SpecG(t)) /\ ValDef(r.val)
-UnarySoundAt(t, f, alg) ==
+\* 32-bit safety of the comparisons: the values f(lam_i) have small numerators and a small common denominator
+RECURSIVE DenProd(_, _, _)
+DenProd(f, s, i) ==
+    IF i = 0 THEN 1
+    ELSE LET q == DenProd(f, s, i - 1) IN IF q > 4000 THEN q ELSE q * QNorm(FApp(f, s[i].lam)).d
+ValsTame(f, s) ==
+    /\ DenProd(f, s, Len(s)) <= 4000
+    /\ \A i \in 1..Len(s): LET x == FApp(f, s[i].lam) IN Abs(x.n[1]) <= 100000 /\ Abs(x.n[2]) <= 100000
+\* (s is SpecG(t), passed in so that it is computed once per statement)
+UPremS(t, s, f, r) ==
+    HasSpecG(t) /\ IsSq(t) /\ FExact(f) /\ OK(r) /\ SpecDefAll(f, s) /\ ValsTame(f, s) /\ ValDefS(r.val, t, s)
+UPrem(t, f, r) == UPremS(t, SpecG(t), f, r)
+UnarySoundAtS(t, s, f, alg) ==
     LET r == AURule(f, t, alg) IN
-    (UPrem(t, f, r) /\ AUDomain(f, t)) => SpecEq(SpecV(r.val), FSpecM(f, SpecG(t)))
+    (UPremS(t, s, f, r) /\ AUDomain(f, t)) => SpecEq(SpecVS(r.val, t, s), FSpecM(f, s))
+UnarySoundAt(t, f, alg) == UnarySoundAtS(t, SpecG(t), f, alg)
 UnarySoundEverywhereAt(t, f, alg) ==
-    LET r == AURule(f, t, alg) IN UPrem(t, f, r) => SpecEq(SpecV(r.val), FSpecM(f, SpecG(t)))
+    LET r == AURule(f, t, alg)
+        s == SpecG(t)
+    IN UPremS(t, s, f, r) => SpecEq(SpecVS(r.val, t, s), FSpecM(f, s))
 
 \* pow with the exact non-integer exponents +-1/2 (sqrt, isqrt)
-PowFracSoundAt(t, al, alg) ==
+PowFracSoundAtS(t, s, al, alg) ==
     LET f == F_PowQ(al)
         r == PowRule(t, al, TRUE, alg)
-    IN (UPrem(t, f, r) /\ PowDomain(f, al.d, t)) => SpecEq(SpecV(r.val), FSpecM(f, SpecG(t)))
+    IN (UPremS(t, s, f, r) /\ PowDomain(f, al.d, t)) => SpecEq(SpecVS(r.val, t, s), FSpecM(f, s))
+PowFracSoundAt(t, al, alg) == PowFracSoundAtS(t, SpecG(t), al, alg)
 PowFracSoundEverywhereAt(t, al, alg) ==
     LET f == F_PowQ(al)
         r == PowRule(t, al, TRUE, alg)
-    IN UPrem(t, f, r) => SpecEq(SpecV(r.val), FSpecM(f, SpecG(t)))
+        s == SpecG(t)
+    IN UPremS(t, s, f, r) => SpecEq(SpecVS(r.val, t, s), FSpecM(f, s))
 \* at a Kronecker root whose factors are handled soundly: the rule is an identity IFF the winding condition holds
 PowKronDomainAt(t, al, alg) ==
     LET f == F_PowQ(al)
         r == PowRule(t, al, TRUE, alg)
         u == Strip(t)
-    IN (ClassOf(t) = "Kronecker" /\ UPrem(t, f, r) /\ \A i \in 1..Len(u.a): PowDomain(f, al.d, u.a[i]))
-          => (SpecEq(SpecV(r.val), FSpecM(f, SpecG(t))) <=> WindOK(al.d, [i \in 1..Len(u.a) |-> SpecG(u.a[i])]))
+        s == SpecG(t)
+    IN (ClassOf(t) = "Kronecker" /\ UPremS(t, s, f, r) /\ \A i \in 1..Len(u.a): PowDomain(f, al.d, u.a[i]))
+          => (SpecEq(SpecVS(r.val, t, s), FSpecM(f, s)) <=> WindOK(al.d, [i \in 1..Len(u.a) |-> SpecG(u.a[i])]))
 
 \* integer exponents: 0 -> I, 1..9 -> repeated products, -1 -> inverse, as exact matrices = sum lam^k P
 LamWithin(s, b) == \A i \in 1..Len(s): LET x == QNorm(s[i].lam) IN x.d <= 4 /\ Abs(x.n[1]) <= b * x.d /\ Abs(x.n[2]) <= b * x.d
-PowTame(t, k) ==
+PowTameS(t, s, k) ==
     LET D == Denote(t)
-        s == SpecG(t)
-    IN CASE k <= 3 -> EntriesWithin(D, 60) /\ LamWithin(s, 40)
-         [] k <= 5 -> EntriesWithin(D, 12) /\ LamWithin(s, 12)
+        a == Abs(k)
+    IN CASE a <= 3 -> EntriesWithin(D, 60) /\ LamWithin(s, 40)
+         [] a <= 5 -> EntriesWithin(D, 12) /\ LamWithin(s, 12)
          [] OTHER -> D.r <= 3 /\ EntriesWithin(D, 3) /\ LamWithin(s, 5)
-PowIntSoundAt(t, k, alg) ==
+PowTame(t, k) == PowTameS(t, SpecG(t), k)
+PowIntSoundAtS(t, s, k, alg) ==
     LET f == F_IPow(k)
         r == PowRule(t, [n |-> k, d |-> 1], TRUE, alg)
-    IN (UPrem(t, f, r) /\ PowTame(t, k)) => MEq(MatV(r.val), SumLamP(FSpecM(f, SpecG(t))))
+    IN (HasSpecG(t) /\ IsSq(t) /\ PowTameS(t, s, k) /\ UPremS(t, s, f, r)) => MEq(MatVS(r.val, t, s), SumLamP(FSpecM(f, s)))
+PowIntSoundAt(t, k, alg) == PowIntSoundAtS(t, SpecG(t), k, alg)
 \* integer powers of a square operand are never refused ... on PowSquareDomain; FAILS without it (recorded defect)
 PowIntCompleteAt(t, k, alg) ==
     (IsSq(t) /\ k >= 0 /\ k <= 9 /\ PowSquareDomain(t)) => PowRule(t, [n |-> k, d |-> 1], TRUE, alg).exc \in {"none", "Unmodelled"}
@@ -583,9 +615,8 @@ EVal(vals, amb, approx) == [vals |-> vals, amb |-> amb, approx |-> approx]
 EigFromSource(calls, src, k, wh) ==
     LET s == SelectEigs(src, k, wh) IN Res(calls, s.exc, IF s.exc = "none" THEN EVal(s.vals, s.amb, FALSE) ELSE NoVal)
 
-EigBase(t, k, wh, alg) ==
+EigBase(t, bag, k, wh, alg) ==          \* bag: the exact spectrum with multiplicities, SpecBag(SpecG(t))
     LET base(a) == "eig(LinearOperator,int,str," \o a \o ")"
-        bag == SpecBag(SpecG(t))
         herm == IsHermitian(Denote(t))
         direct(a) ==
             CASE a = "Eig" -> EigFromSource(<<base("Eig")>>, bag, k, wh)
@@ -603,7 +634,7 @@ EigBase(t, k, wh, alg) ==
        THEN LET r == direct(AutoChoice("eig", FactsOf(t, k, wh))) IN Res(<<base("Auto")>> \o r.calls, r.exc, r.val)
        ELSE direct(alg)
 
-EigRule(t, k, wh, alg) ==
+EigRuleB(t, bag, k, wh, alg) ==
     LET u == Strip(t)
         cls == ClassOf(t)
     IN CASE
@@ -618,7 +649,8 @@ EigRule(t, k, wh, alg) ==
          \* eig(A: Diagonal): select among A.diag
          [] cls = "Diagonal" ->
                EigFromSource(<<"eig(Diagonal,int,str,Algorithm)">>, [i \in 1..Len(u.p.v) |-> QFromC(u.p.v[i])], k, wh)
-         [] OTHER -> EigBase(t, k, wh, alg)
+         [] OTHER -> EigBase(t, bag, k, wh, alg)
+EigRule(t, k, wh, alg) == EigRuleB(t, SpecBag(SpecG(t)), k, wh, alg)
 
 \* specification of the selection: a sub-multiset of the spectrum of size min(k, n) such that no eigenvalue left
 \* out is larger ('LM') / smaller ('SM') in magnitude than one that is taken
@@ -631,13 +663,15 @@ IsTopK(sel, bag, k, wh) ==
               (IF wh = "LM" THEN ~Abs2LT(sel[i], bag[j]) ELSE ~Abs2LT(bag[j], sel[i]))
 \* returned in increasing magnitude
 Ascending(sel) == \A i \in 1..(Len(sel) - 1): ~Abs2LT(sel[i + 1], sel[i])
-EigSoundAt(t, k, wh, alg) ==
-    LET r == EigRule(t, k, wh, alg) IN
+EigSoundAtB(t, bag, k, wh, alg) ==
+    LET r == EigRuleB(t, bag, k, wh, alg) IN
     (HasSpecG(t) /\ IsSq(t) /\ OK(r) /\ k >= 1 /\ k <= ShapeOf(t)[1] /\ wh \in {"LM", "SM"}) =>
-        /\ IsTopK(r.val.vals, SpecBag(SpecG(t)), k, wh)
+        /\ IsTopK(r.val.vals, bag, k, wh)
         /\ Ascending(r.val.vals)
+EigSoundAt(t, k, wh, alg) == EigSoundAtB(t, SpecBag(SpecG(t)), k, wh, alg)
 \* FAILS: k = 0 with 'LM' returns the whole spectrum (slice(-0, None)), k = 0 with 'SM' returns nothing
 EigSoundEverywhereAt(t, k, wh, alg) ==
-    LET r == EigRule(t, k, wh, alg) IN
-    (HasSpecG(t) /\ IsSq(t) /\ OK(r) /\ k >= 0 /\ wh \in {"LM", "SM"}) => IsTopK(r.val.vals, SpecBag(SpecG(t)), k, wh)
+    LET bag == SpecBag(SpecG(t))
+        r == EigRuleB(t, bag, k, wh, alg)
+    IN (HasSpecG(t) /\ IsSq(t) /\ OK(r) /\ k >= 0 /\ wh \in {"LM", "SM"}) => IsTopK(r.val.vals, bag, k, wh)
 =============================================================================
